@@ -37,6 +37,22 @@ def random_specs(rng, n):
         vs = [Variant(ident=i, disabled=rng.random() < 0.25) for i in rand_idents(rng, nv)]
         if all(v.disabled for v in vs):
             vs[0].disabled = False
+        if rng.random() < 0.5:
+            vals = rng.sample(range(0, 200, 3), nv)      # distinct, gaps >= 3, arbitrary order
+            for v, x in zip(vs, vals):
+                if rng.random() < 0.6:
+                    v.disc, v.disc_val = str(x), x
+            # implicit successors must not collide with an explicit value
+            seen, prev, ok = set(), None, True
+            for v in vs:
+                cur = v.disc_val if v.disc is not None else (0 if prev is None else prev + 1)
+                if cur in seen:
+                    ok = False
+                seen.add(cur)
+                prev = cur
+            if not ok:
+                for v in vs:
+                    v.disc, v.disc_val = None, None
         out.append(decorate(rng, EnumSpec("R%d" % k, vs, role="random", note="random")))
     return out
 
@@ -153,7 +169,7 @@ def program(spec: EnumSpec, pname, tier):
 
 def build(tier, seed):
     rng = mk_rng(seed, "C10")
-    specs = pivot() + random_specs(rng, 2 if tier == "quick" else 16)
+    specs = pivot() + random_specs(rng, 6 if tier == "quick" else 20)
     programs = [program(s, "p%03d" % i, tier) for i, s in enumerate(specs)]
     return {
         "programs": programs,
